@@ -39,8 +39,20 @@ def show_loops(gb):
 
 
 def symbols(gb):
+    """symbol id -> declaration line (0 if unknown)"""
     rc, out = run_out(["goto-instrument", "--show-symbol-table", gb], timeout=180)
-    return set(re.findall(r"^Symbol\.+: (\S+)$", out, re.M))
+    res = {}
+    cur = None
+    for l in out.splitlines():
+        m = re.match(r"^Symbol\.+: (\S+)$", l)
+        if m:
+            cur = m.group(1)
+            res[cur] = 0
+            continue
+        m = re.match(r"^Location\.+: file \S+ line (\d+)", l)
+        if m and cur:
+            res[cur] = int(m.group(1))
+    return res
 
 
 _src_cache = {}
@@ -84,20 +96,28 @@ def resolve(unit, gb, outdir):
             if len(chosen) != 1:
                 raise ResolveError("anchor /%s/ matched %d loops of %s" % (t["anchor"], len(chosen), fn))
         text = " ".join(t.get(k, "") for k in ("invariants", "assigns", "decreases"))
-        smap = []
-        for ident in sorted(idents(text)):
-            loc = sorted(s for s in syms if s.startswith(fn + "::") and s.split("::")[-1] == ident and "$tmp" not in s)
-            if ident in t.get("symbols", {}):
-                smap.append("%s,%s" % (ident, t["symbols"][ident]))
-            elif len(loc) == 1:
-                smap.append("%s,%s" % (ident, loc[0]))
-            elif len(loc) > 1:
-                raise ResolveError("local %s of %s is ambiguous: %s" % (ident, fn, loc))
-            elif ident in syms:
-                smap.append("%s,%s" % (ident, ident))
-            else:
-                raise ResolveError("identifier %s (in loop contract of %s) not found in symbol table" % (ident, fn))
         for l in chosen:
+            smap = []
+            for ident in sorted(idents(text)):
+                loc = sorted(s for s in syms if s.startswith(fn + "::") and s.split("::")[-1] == ident and "$tmp" not in s)
+                if ident in t.get("symbols", {}):
+                    smap.append("%s,%s" % (ident, t["symbols"][ident]))
+                elif len(loc) == 1:
+                    smap.append("%s,%s" % (ident, loc[0]))
+                elif len(loc) > 1:
+                    # several locals of that name (e.g. `i` of consecutive loops): the one declared closest before/at the loop head
+                    cand = [s for s in loc if 0 < syms[s] <= l["line"]]
+                    if not cand:
+                        raise ResolveError("local %s of %s is ambiguous: %s" % (ident, fn, loc))
+                    best = max(syms[s] for s in cand)
+                    cand = [s for s in cand if syms[s] == best]
+                    if len(cand) != 1:
+                        raise ResolveError("local %s of %s is ambiguous: %s" % (ident, fn, cand))
+                    smap.append("%s,%s" % (ident, cand[0]))
+                elif ident in syms:
+                    smap.append("%s,%s" % (ident, ident))
+                else:
+                    raise ResolveError("identifier %s (in loop contract of %s) not found in symbol table" % (ident, fn))
             e = {"loop_id": str(l["id"])}
             for k in ("assigns", "invariants", "decreases"):
                 if t.get(k):
